@@ -622,6 +622,48 @@ def factory_rules(index: RepoIndex, rep, rule: str) -> None:
     OPT = f'[_v1.name for _v1 in {params_e} if _v1.default is not inspect.Parameter.empty]'
     ok = base['check'] == f'checkraise_kwargs(kwargs, {REQ})' and \
         base['ret'] == [f'partial({FN}, **select_kwargs(kwargs, {REQ} + {OPT}))']
+    if not ok:
+        # second reading: the key collections as sets of parameter names -- (source, 'req' /
+        # 'opt' / 'all') -- whatever comprehension, set or concatenation spells them
+        def keyset(e: ast.AST):
+            if isinstance(e, ast.Call) and src(e.func) in ('set', 'list', 'tuple', 'frozenset',
+                                                           'sorted') and len(e.args) == 1:
+                return keyset(e.args[0])
+            if isinstance(e, ast.BinOp) and isinstance(e.op, (ast.Add, ast.BitOr)):
+                a_, b_ = keyset(e.left), keyset(e.right)
+                if a_ and b_ and a_[0] == b_[0] and {a_[1], b_[1]} == {'req', 'opt'}:
+                    return (a_[0], 'all')
+                return None
+            if isinstance(e, (ast.ListComp, ast.SetComp, ast.GeneratorExp)) and \
+                    len(e.generators) == 1 and isinstance(e.generators[0].target, ast.Name):
+                g_ = e.generators[0]
+                v_ = g_.target.id
+                if src(e.elt) != f'{v_}.name':
+                    return None
+                if not g_.ifs:
+                    return (src(g_.iter), 'all')
+                if len(g_.ifs) == 1:
+                    t_ = src(g_.ifs[0])
+                    if t_ == f'{v_}.default is inspect.Parameter.empty':
+                        return (src(g_.iter), 'req')
+                    if t_ == f'{v_}.default is not inspect.Parameter.empty':
+                        return (src(g_.iter), 'opt')
+            return None
+        try:
+            chk = ast.parse(base['check'] or 'None', mode='eval').body
+            rt_ = ast.parse(base['ret'][0], mode='eval').body if len(base['ret']) == 1 else None
+        except SyntaxError:
+            chk = rt_ = None
+        ok = isinstance(chk, ast.Call) and src(chk.func) == 'checkraise_kwargs' and \
+            len(chk.args) == 2 and src(chk.args[0]) == 'kwargs' and \
+            keyset(chk.args[1]) == (params_e, 'req') and \
+            isinstance(rt_, ast.Call) and src(rt_.func) == 'partial' and \
+            len(rt_.args) == 1 and src(rt_.args[0]) == FN and len(rt_.keywords) == 1 and \
+            rt_.keywords[0].arg is None and isinstance(rt_.keywords[0].value, ast.Call) and \
+            src(rt_.keywords[0].value.func) == 'select_kwargs' and \
+            len(rt_.keywords[0].value.args) == 2 and \
+            src(rt_.keywords[0].value.args[0]) == 'kwargs' and \
+            keyset(rt_.keywords[0].value.args[1]) == (params_e, 'all')
     rep.check(ok, rule, ROLE_FILE['reset'], 'factory', f.node.lineno,
               f'{base["check"]}; {base["ret"]}'[:300],
               'the required/optional split, the required-key check, the key selection or the '
